@@ -199,6 +199,9 @@ fn run_chain(chain: &Chain, sched_for: &mut dyn FnMut(usize) -> Sched, ref_heads
         if !check_against_truth(&d, ex, truth, ref_heads.map(|h| h[i].as_slice()), "C01", rec) {
             return None;
         }
+        if d.direct_writes > 0 {
+            rec.cov("schedule/direct-write-reports");
+        }
         heads.push(d.head_out.clone());
         offset += d.consumed;
         if d.must_close() == Some(true) {
@@ -308,7 +311,7 @@ impl Property for P {
         "C01"
     }
     fn rule(&self) -> String {
-        "chains of 1..3 exchanges on one connection: request configs over 9 methods x 1.0/1.1 x (Content-Length | chunked | default) x Expect (100 received / gave up / late 100 / refused) x despite-method, server streams rendered from structured responses (any status, length / chunked / close-delimited / no body, random fields) back to back. Each chain runs one-shot and then under K seeded schedules (head buffer sizes, body input and output sizes, arrival slicing incl. 1-byte and 0..3 bytes, read buffer sizes incl. 0, read-only queries interleaved, boundary stop). Every run is compared with the ground truth of the description (request head == one-shot head, request payload recovered from the wire with a strict dechunker, response status/fields/body, states visited, reuse verdict) and the consumed count must equal the exact length of that exchange's message(s); exchange i+1 starts where exchange i stopped. Second workload: short chains under every single arrival cut and every pair of cuts. class = framing rule x terminal, handshake, request shape, chain length, schedule family.".into()
+        "chains of 1..3 exchanges on one connection: request configs over 9 methods x 1.0/1.1 x (Content-Length | chunked | default) x Expect (100 received / gave up / late 100 / refused) x despite-method, server streams rendered from structured responses (any status, length / chunked / close-delimited / no body, random fields) back to back. Each chain runs one-shot and then under K seeded schedules (head buffer sizes, body input and output sizes, arrival slicing incl. 1-byte and 0..3 bytes, read buffer sizes incl. 0, read-only queries interleaved, boundary stop). Every run is compared with the ground truth of the description (request head == one-shot head, request payload recovered from the wire with a strict dechunker, response status/fields/body, states visited, reuse verdict) and the consumed count must equal the exact length of that exchange's message(s); exchange i+1 starts where exchange i stopped. Second workload: short chains under every single arrival cut and every pair of cuts. One schedule in four reports part of a length-delimited request body through consume_direct_write instead of write. class = framing rule x terminal, handshake, request shape, chain length, schedule family.".into()
     }
     fn assumptions(&self) -> Vec<String> {
         vec![
@@ -340,7 +343,7 @@ impl Property for P {
     fn floors(&self, _tier: Tier) -> Vec<(String, u64)> {
         [
             "chain-of-1", "chain-of-2", "chain-of-3", "framing/chunked/*", "framing/length/*", "framing/close/Cleanup", "framing/HEAD/*", "framing/redirect-without-framing/Redirect", "request/sized-body/*", "request/chunked-body/*",
-            "request/no-body/HTTP/1.0", "single-cut", "double-cut", "unsolicited-100", "schedule/small-payload-profiles", "schedule/large-payload-profiles", "hook:dechunk:Trailer->Ending", "hook:tick:write_chunk",
+            "request/no-body/HTTP/1.0", "single-cut", "double-cut", "unsolicited-100", "schedule/direct-write-reports", "schedule/small-payload-profiles", "schedule/large-payload-profiles", "hook:dechunk:Trailer->Ending", "hook:tick:write_chunk",
         ]
         .iter()
         .map(|k| (k.to_string(), 20))
